@@ -213,6 +213,11 @@ def doc_block(lines, indent, opener="#[[[", leaderless=False, raw=None, form="ca
     if form == "oneline" and ok_last and len(lines) == 1 and opener == "#[[[" and not lines[0].lstrip().startswith("@module"):
         # ('#[[[ @module' opens a MODULE doccomment, wherever it stands)
         return indent + "#[[[ " + lines[0] + "#]]\n"
+    if form == "open-inline" and lines and lines[0] != "" and lines[0][0] not in "#[] \t" and not leaderless and raw is None \
+            and opener == "#[[[" and not lines[0].lstrip().startswith("@module"):
+        # the first text line stands on the opening line: '#[[[ first' / '# second' / '#]]'
+        body = [indent + ("# " + t if t != "" else "#") for t in lines[1:]]
+        return "\n".join([indent + "#[[[ " + lines[0]] + body + [indent + "#]]"]) + "\n"
     if form == "close-inline" and ok_last:
         body = [indent + ("# " + t if t != "" else "#") for t in lines]
         body[-1] += "#]]"
@@ -258,7 +263,7 @@ def render(mod, layout=None):
                 ind = ""
             form = "canonical"
             if lay.docforms and lay._p(lay.docforms):
-                form = lay.rng.choice(["close-inline", "oneline"])
+                form = lay.rng.choice(["close-inline", "oneline", "open-inline"])
                 lay.stats["unusual_doc_forms"] = lay.stats.get("unusual_doc_forms", 0) + 1
             out.append(doc_block(v.doc, ind, leaderless=v.leaderless, raw=getattr(v, "raw_lines", None), form=form))
             i += 1
